@@ -18,7 +18,7 @@ func init() { register("C12", checkC12) }
 
 // roles of the three tracking containers of an entity
 type trackRoles struct {
-	Owner               string
+	Owner                string
 	Current, Plus, Minus string
 }
 
